@@ -13,6 +13,10 @@ macro_rules! props {
             }
         }
         pub fn replay(id: &str, ctx: &Ctx, inp: &Input, clause: &str) -> Option<Rep> {
+            // witnesses of whole-run clauses carry no input: replaying them means re-running the workload
+            if *inp == Input::None {
+                return run(id, ctx);
+            }
             match id {
                 $( #[cfg(feature = $feat)] $id => Some($m::replay(ctx, inp, clause)), )*
                 _ => None,
@@ -26,7 +30,22 @@ props! {
     "c02" c02 "C02",
     "c03" c03 "C03",
     "c04" c04 "C04",
+    "c05" c05 "C05",
+    "c06" c06 "C06",
+    "c07" c07 "C07",
+    "c08" c08 "C08",
     "c09" c09 "C09",
+    "c10" c10 "C10",
+    "c11" c11 "C11",
+    "c12" c12 "C12",
+    "c13" c13 "C13",
+    "c14" c14 "C14",
+    "c15" c15 "C15",
+    "c16" c16 "C16",
+    "c17" c17 "C17",
+    "c18" c18 "C18",
+    "c19" c19 "C19",
+    "c20" c20 "C20",
 }
 
 /// Words of a slot-ordered list of deck indices (52 = blank), from the model layout.
@@ -163,3 +182,4 @@ pub fn model_valid(w: &[u32]) -> bool {
     }
     true
 }
+pub mod named;
